@@ -10,7 +10,7 @@ from .. import kinds
 
 ID = 'C06'
 LEVEL = 'exploration'
-RULE = ('formulas (<=2 operators) over predicates on x only, y only and mixing x and y, x all 4 input/output assignments of (x, y) plus the default '
+RULE = ('formulas (<=2 operators) over predicates on x only, y only and mixing x and y (plus 26 predicates whose operands are Boolean, temporal or event expressions over the variables, e.g. (x xor y) >= 1), x all 4 input/output assignments of (x, y) plus the default '
         'declarations x the 5 semantics x the 4 real monitor kinds x all traces up to length 3 (dense: the grid step signal and unaligned signals; '
         'online: sample by sample / batch and one-at-a-time); the result must equal the reference rho in which a predicate that mentions no '
         'output (input) variable contributes +-inf by its truth value under output (input) robustness and 0 under output (input) vacuity, every other '
@@ -65,6 +65,14 @@ def formula_set(tier):
     f2 = [f for f in F.F(2, U, B, leaves[:1] if quick else leaves) if F.size(f) == 2]
     fs += f2[::6] if quick else f2[::4]
     fs += [('and', ('once', (0, 1), F.PX), ('or', MIX, ('historically', None, F.PY))), ('pred', '>=', ('abs', F.X), F.C1), ('pred', '<', ('neg', F.Y), F.C0)]
+    # predicates whose operands are themselves Boolean / temporal / event expressions over the variables (legal for the grammar): such a
+    # predicate still "mentions" the variables below it
+    X, Y = F.X, F.Y
+    comp = [('xor', X, Y), ('and', X, Y), ('or', X, Y), ('iff', X, Y), ('implies', X, Y), ('not', X), ('once', (0, 1), X), ('historically', None, Y),
+            ('prev', X), ('rise', X), ('since', None, X, Y), ('eventually', (0, 1), Y), ('always', (0, 1), ('xor', X, Y)), ('not', ('xor', X, Y)),
+            ('xor', ('abs', X), Y), ('xor', X, F.C1), ('once', None, ('xor', Y, X))]
+    fs += [('pred', '>=', g, F.C1) for g in comp] + [('pred', '<', ('+', g, X), F.C0) for g in comp[:6]] + \
+        [('and', ('pred', '>', ('xor', X, Y), F.C1), F.PY), ('once', (0, 1), ('pred', '<=', ('xor', X, X), F.C0)), ('pred', '==', ('xor', X, Y), ('or', X, Y))]
     out, seen = [], set()
     for f in fs:
         if f not in seen:
